@@ -329,6 +329,7 @@ def run(ctx):
     from . import common
     cg = res.clause('C13.g', 'R-PROV', 'recycle rate, timeout and process mode are stored as the caller gave them', floor=3)
     common.ctor_params_clause(ctx, res, cg, 'C13', 'C13.g', 'CompareExecutionConfig')
+    common.ctor_calls_agree_clause(ctx, res, cg, 'C13', 'C13.g', 'CompareExecutionConfig')
     return res
 
 
